@@ -527,6 +527,8 @@ static Token *subst(Token *tok, MacroArg *args) {
       if (!arg)
         error_tok(tok->next, "'#' is not followed by a macro parameter");
       cur = cur->next = stringize(tok, arg->tok);
+      cur->at_bol = false;
+      cur->has_space = tok->has_space;
       tok = tok->next->next;
       continue;
     }
@@ -557,7 +559,10 @@ static Token *subst(Token *tok, MacroArg *args) {
       MacroArg *arg = find_arg(args, tok->next);
       if (arg) {
         if (arg->tok->kind != TK_EOF) {
+          bool at_bol = cur->at_bol, has_space = cur->has_space;
           *cur = *paste(cur, arg->tok);
+          cur->at_bol = at_bol;
+          cur->has_space = has_space;
           for (Token *t = arg->tok->next; t->kind != TK_EOF; t = t->next)
             cur = cur->next = copy_token(t);
         }
@@ -565,7 +570,10 @@ static Token *subst(Token *tok, MacroArg *args) {
         continue;
       }
 
+      bool at_bol = cur->at_bol, has_space = cur->has_space;
       *cur = *paste(cur, tok->next);
+      cur->at_bol = at_bol;
+      cur->has_space = has_space;
       tok = tok->next->next;
       continue;
     }
@@ -649,6 +657,8 @@ static bool expand_macro(Token **rest, Token *tok) {
   if (m->handler) {
     *rest = m->handler(tok);
     (*rest)->next = tok->next;
+    (*rest)->at_bol = tok->at_bol;
+    (*rest)->has_space = tok->has_space;
     return true;
   }
 
